@@ -336,6 +336,10 @@ func (abv *accountBlockVerifier) fromHash() error {
 	} else if sendBlock == nil {
 		return ErrABFromBlockMissing
 	}
+	// only a send block can be received
+	if !sendBlock.IsSendBlock() {
+		return ErrABFromBlockMissing
+	}
 
 	if abv.block.Address != sendBlock.ToAddress {
 		// Use the momentum ledger's true frontier height when comparing
